@@ -119,7 +119,8 @@ def shards(tier, seed):
             out.append({"kind": "width", "k": [2, 2], "len": L["width"], "dtypes": [d1, d2], "variant": v0,
                         "embed": seed % 4, "w": 200})
     out.append({"kind": "refuse", "variant": v0, "embed": seed % 4, "w": 1})
-    for sub in ("flavours", "library", "mirror", "alias", "counts", "long", "palette", "identity", "resize", "derived"):
+    for sub in ("flavours", "library", "mirror", "alias", "counts", "long", "palette", "identity", "resize", "derived",
+                "alphabet_fit", "precedence"):
         out.append({"kind": "audit", "sub": sub, "variant": v0, "embed": seed % 4, "w": 50})
     out.sort(key=lambda s: -s["w"])
     for s in out:
@@ -834,6 +835,98 @@ def audit_derived(ctx, shard):
                         ctx.outcome(("derived", ref[0][0] if ref else None))
 
 
+# ---------------------------------------------------------------------------
+# third dimension audit
+# ---------------------------------------------------------------------------
+def bigger_alphabet_cases(env):
+    """F: sequences whose alphabet has MORE symbols than the matrix alphabet (the matrix does not extend it).
+    Yields (label, which sequence(s), letters->codes, must_raise).  Codes inside the matrix range: the requirement
+    'matrix alphabets extend the sequence alphabets' is violated but a result could be computed - unspecified
+    (exception or exactly the model value).  A code beyond the matrix: no value exists, must raise."""
+    import biotite.sequence as bseq
+
+    big1 = bseq.Alphabet(list(range(env.size1 + 2)))
+    big2 = bseq.Alphabet(list(range(env.size2 + 2)))
+    G = bseq.GeneralSequence
+    out = []
+    for l1 in ((0,), (0, 1), (1, 0, 1)):
+        for l2 in ((1,), (1, 0), (0, 1, 1)):
+            c1, c2 = list(env.codes(1, l1)), list(env.codes(2, l2))
+            plain1, plain2 = env.seq(1, l1), env.seq(2, l2)
+            beyond1 = c1[:-1] + [env.size1 + 1]
+            beyond2 = c2[:-1] + [env.size2]
+            out.append(("seq1_alphabet_larger_codes_inside", G(big1, c1), plain2, l1, l2, False))
+            out.append(("seq2_alphabet_larger_codes_inside", plain1, G(big2, c2), l1, l2, False))
+            out.append(("both_alphabets_larger_codes_inside", G(big1, c1), G(big2, c2), l1, l2, False))
+            out.append(("seq1_code_beyond_matrix", G(big1, beyond1), plain2, l1, l2, True))
+            out.append(("seq2_code_beyond_matrix", plain1, G(big2, beyond2), l1, l2, True))
+            out.append(("both_codes_beyond_matrix", G(big1, beyond1), G(big2, beyond2), l1, l2, True))
+    return out
+
+
+def audit_alphabet_fit(ctx, shard):
+    import biotite.sequence.align as balign
+
+    from mc.models import align_audit as AU
+    from mc.models import align_inputs as I
+
+    for k1, k2, fam in ((2, 2, "asym"), (2, 3, "rect")):
+        env = I.Env(k1, k2, fam, 0, 1)
+        for label, s1, s2, l1, l2, must_raise in bigger_alphabet_cases(env):
+            for gap in AUDIT_GAPS[:2]:
+                for mode in MODES:
+                    case = {"kind": "alphabet_fit", **env.describe(), "label": label, "s1": list(l1), "s2": list(l2),
+                            "gap": I.gap_json(gap), "mode": mode}
+                    if not ctx.journal(json.dumps(case)):
+                        continue
+                    ctx.ev(1, 1)
+                    try:
+                        got = AU.result_key(balign.align_optimal(s1, s2, env.matrix, gap_penalty=gap, max_number=1000,
+                                                                 **_mode_kwargs(mode)))
+                    except Exception as e:  # noqa: BLE001
+                        ctx.count("refused" if must_raise else "unspecified_raised")
+                        ctx.outcome(("alphabet_fit", label, type(e).__name__))
+                        continue
+                    if must_raise:
+                        ctx.violation("align_optimal|alphabet_larger_than_matrix_not_refused|%s" % label,
+                                      "a sequence holds a symbol the substitution matrix has no row / column for, but the "
+                                      "call returns", case, "an exception", got[:1])
+                        continue
+                    ctx.count("unspecified_returned")
+                    want = AU.result_key(_call(env, l1, l2, gap, mode))
+                    if got != want:
+                        ctx.violation("align_optimal|alphabet_larger_than_matrix_changes_result|%s" % label,
+                                      "sequence alphabet not extended by the matrix alphabet is accepted but the result "
+                                      "differs from the one for the same codes", case, want[:2], got[:2])
+
+
+def audit_precedence(ctx, shard):
+    """H: `terminal_penalty` is documented to have no effect when `local` is true - both given and contradictory."""
+    import biotite.sequence.align as balign
+
+    from mc.models import align_audit as AU
+    from mc.models import align_inputs as I
+
+    for fam in ("asym", "allneg", "zero"):
+        env = I.Env(2, 2, fam, 0, 0)
+        for l1 in I.sequences(2, 3, 1):
+            for l2 in I.sequences(2, 3, 1):
+                for gap in I.GAPS:
+                    ctx.ev(2, 1)
+                    case = {"kind": "precedence", **env.describe(), "s1": list(l1), "s2": list(l2),
+                            "gap": I.gap_json(gap)}
+                    s1, s2 = env.seq(1, l1), env.seq(2, l2)
+                    a = AU.result_key(balign.align_optimal(s1, s2, env.matrix, gap_penalty=gap, local=True,
+                                                           terminal_penalty=True))
+                    b = AU.result_key(balign.align_optimal(s1, s2, env.matrix, gap_penalty=gap, local=True,
+                                                           terminal_penalty=False))
+                    ctx.outcome(("precedence", a[0][0], len(a)))
+                    if a != b:
+                        ctx.violation("align_optimal|terminal_penalty_changes_local_result|%s" % I.gap_class(gap),
+                                      "terminal_penalty is documented to have no effect for local=True, but the result "
+                                      "changes with it", case, a[:2], b[:2])
+
+
 def _run_audit(shard, ctx):
     from mc.models import align_audit as AU
 
@@ -858,9 +951,13 @@ def _run_audit(shard, ctx):
         audit_resize(ctx, shard)
     elif sub == "derived":
         audit_derived(ctx, shard)
+    elif sub == "alphabet_fit":
+        audit_alphabet_fit(ctx, shard)
+    elif sub == "precedence":
+        audit_precedence(ctx, shard)
 
 
-DIFFERENTIAL_SUBS = {"mirror": "mirror", "alias": "alias", "identity": "identity", "resize": "resize",
+DIFFERENTIAL_SUBS = {"alphabet_fit": "alphabet_fit", "precedence": "precedence", "mirror": "mirror", "alias": "alias", "identity": "identity", "resize": "resize",
                      "derived": "derived", "argument_types": "argtypes"}
 
 
@@ -882,6 +979,8 @@ def run_audit(shard, ctx):
 
 
 def crash_class(case):
+    if isinstance(case, dict) and case.get("kind") == "alphabet_fit":
+        return "align_optimal|alphabet_larger_than_matrix|%s" % case.get("label")
     if isinstance(case, dict):
         return "align_optimal|%s|%s" % (case.get("mode"), "empty_sequence")
     return "unclassified"
@@ -892,9 +991,9 @@ def replay(case, ctx):
 
     if case.get("kind") == "mutated":
         return
-    if case.get("kind") in ("mirror", "alias", "long", "identity", "resize", "derived"):
+    if case.get("kind") in ("mirror", "alias", "long", "identity", "resize", "derived", "alphabet_fit", "precedence"):
         sh = {"variant": case["variant"], "embed": case["embed"]}
-        {"mirror": audit_mirror, "alias": audit_alias, "long": audit_long, "identity": audit_identity,
+        {"alphabet_fit": audit_alphabet_fit, "precedence": audit_precedence, "mirror": audit_mirror, "alias": audit_alias, "long": audit_long, "identity": audit_identity,
          "resize": audit_resize, "derived": audit_derived}[case["kind"]](ctx, sh)
         return
     from mc.models import align_audit as AU
